@@ -29,8 +29,12 @@ class Purity:
         self.memo[pat] = True  # optimistic for recursion
         shapes = self.facts.shapes(pat)
         if not shapes:
-            r = pat in QUIET_STD or pat.startswith("std::chrono") or pat.split("::")[-1] in ("operator==", "operator!=", "operator<", "operator>", "get", "mark",
-                                                                                              "operator->", "operator*", "operator conv", "operator bool")
+            # no body in the facts: implicit special members, std:: / compiler helpers.  They cannot write a xenium atomic that another thread
+            # waits for; blocking primitives are handled separately (LOCK_CALLS).
+            # conservative: only a small set of helpers is known to be quiet; anything else may write shared state, so a cycle through it is
+            # not classified as a wait construct (precision first: an armed check must be exact)
+            r = pat in QUIET_STD or pat.startswith("std::chrono") or pat.split("::")[-1] in (
+                "operator==", "operator!=", "operator<", "operator>", "get", "mark", "operator->", "operator*", "operator conv", "operator bool")
             self.memo[pat] = r
             return r
         r = True
@@ -88,10 +92,9 @@ def wait_loops(fn, purity):
                     for f2 in purity.facts.shapes(c)[:2]:
                         if any(x["kind"] == "load" for x in f2.atomics()):
                             has_load = True
-            if n["k"] in ("new", "delete", "throw", "return"):
-                if n["k"] != "return":
-                    ok = False
-                    break
+            if n["k"] in ("new", "delete", "throw"):
+                ok = False
+                break
         if ok:
             quiet.add(b)
             loads[b] = has_load
@@ -138,7 +141,7 @@ def wait_loops(fn, purity):
             continue
         if not any(loads.get(b) for b in comp):
             continue
-        # bounded by a local counter modified inside the cycle and tested in one of its conditions?
+        # locals (and plain members) modified inside the component: counters that bound a cycle
         modified = set()
         for b in comp:
             for e in fn.blocks[b]["elems"]:
@@ -149,37 +152,102 @@ def wait_loops(fn, purity):
                         modified.add(fn.nodes[k[0]].get("name"))
                     elif k and fn.nodes[k[0]]["k"] == "member" and not fn.nodes[k[0]].get("t", "").startswith("std::atomic"):
                         modified.add("." + fn.nodes[k[0]].get("leaf"))
-                if n["k"] == "bin" and n["op"] in ("+=", "-=", "="):
+                if n["k"] == "bin" and n["op"] in ("+=", "-="):
                     k = fn.kids(e)
                     if k and fn.nodes[k[0]]["k"] == "ref" and fn.nodes[k[0]].get("dk") == "local":
-                        # assignment from a load is not a counter
-                        rhs = fn.expr(k[1])
-                        if ".load(" not in rhs and "(" not in rhs:
+                        modified.add(fn.nodes[k[0]].get("name"))
+        # enumerate the elementary cycles of the component (bounded) and classify each by the outcomes of the conditions taken along it
+        cycles = _simple_cycles(fn, cs, limit=400)
+        if cycles is None:
+            continue  # too many paths: not classified (listed as such in the evidence by the caller)
+        for cyc in cycles:
+            kinds = []
+            has_load = any(loads.get(b) for b in cyc)
+            # counters modified ALONG THIS CYCLE (an increment elsewhere in the component does not bound this cycle)
+            modified = set()
+            for b in cyc:
+                for e in fn.blocks[b]["elems"]:
+                    n = fn.nodes[e]
+                    if n["k"] == "un" and n["op"] in ("++", "--"):
+                        k = fn.kids(e)
+                        if k and fn.nodes[k[0]]["k"] == "ref":
                             modified.add(fn.nodes[k[0]].get("name"))
-        bounded = False
-        for b in comp:
-            blk = fn.blocks[b]
-            if "cond" in blk:
-                names = {fn.nodes[x].get("name") for x in fn.subtree(blk["cond"]) if fn.nodes[x]["k"] == "ref"}
-                names |= {"." + fn.nodes[x].get("leaf") for x in fn.subtree(blk["cond"]) if fn.nodes[x]["k"] == "member"}
-                if names & modified:
-                    # the counter-governed condition must have an exit out of the component
-                    if any(s is not None and s not in cs for s in blk["succ"]):
-                        bounded = True
-        if bounded:
-            continue
-        # classify the conditions of the cycle: a wait loop only performs constant tests of (re)loaded values - is_locked(), != 0, empty(),
-        # is_write_pending(x).  A condition that compares two loaded values is a re-validation: run alone the second load equals the first,
-        # and it only repeats when another thread made progress (lock-free retry), so such cycles are not wait constructs.
-        conds_in = [fn.blocks[b]["cond"] for b in comp if "cond" in fn.blocks[b] and any(s_ in cs for s_ in fn.blocks[b]["succ"] if s_ is not None)]
-        if not conds_in:
-            continue
-        if not all(_constant_test(fn, c) for c in conds_in):
-            continue
-        lines = sorted({fn.nodes[e].get("l", 0) for b in comp for e in fn.blocks[b]["elems"] if fn.nodes[e].get("l")})
-        conds = [fn.expr(fn.blocks[b]["cond"])[:60] for b in comp if "cond" in fn.blocks[b]]
-        out.append({"blocks": sorted(comp), "lines": (lines[0], lines[-1]) if lines else (0, 0), "conds": conds})
+                        elif k and fn.nodes[k[0]]["k"] == "member" and not fn.nodes[k[0]].get("t", "").startswith("std::atomic"):
+                            modified.add("." + fn.nodes[k[0]].get("leaf"))
+                    if n["k"] == "bin" and n["op"] in ("+=", "-="):
+                        k = fn.kids(e)
+                        if k and fn.nodes[k[0]]["k"] == "ref" and fn.nodes[k[0]].get("dk") == "local":
+                            modified.add(fn.nodes[k[0]].get("name"))
+            for i_, b in enumerate(cyc):
+                nxt = cyc[(i_ + 1) % len(cyc)]
+                blk = fn.blocks[b]
+                if "cond" not in blk or len(blk["succ"]) != 2:
+                    continue
+                if blk["succ"][0] == blk["succ"][1]:
+                    continue
+                outcome = (blk["succ"][0] == nxt)   # condition was true on this cycle edge
+                kinds.append(_edge_kind(fn, blk["cond"], outcome, modified))
+            if not has_load or not kinds:
+                continue
+            if "bounded" in kinds or "changed" in kinds or "unknown" in kinds:
+                continue   # bounded by a counter, or repeated only because another thread changed something (lock-free retry), or not classifiable
+            if "constant-test" in kinds or "unchanged" in kinds:
+                lines = sorted({fn.nodes[e].get("l", 0) for b in cyc for e in fn.blocks[b]["elems"] if fn.nodes[e].get("l")})
+                conds = [fn.expr(fn.blocks[b]["cond"])[:60] for b in cyc if "cond" in fn.blocks[b]]
+                out.append({"blocks": sorted(cyc), "lines": (lines[0], lines[-1]) if lines else (0, 0), "conds": conds})
+                break
     return out
+
+
+def _simple_cycles(fn, comp, limit=400):
+    """elementary cycles inside a strongly connected block set (DFS from the smallest block id; bounded)"""
+    comp = set(comp)
+    cycles = []
+    order = sorted(comp)
+    for start in order:
+        stack = [(start, [start])]
+        allowed = {b for b in comp if b >= start}
+        while stack:
+            b, path = stack.pop()
+            for s_ in fn.blocks[b]["succ"]:
+                if s_ is None or s_ not in allowed:
+                    continue
+                if s_ == start:
+                    cycles.append(list(path))
+                    if len(cycles) > limit:
+                        return None
+                elif s_ not in path:
+                    stack.append((s_, path + [s_]))
+    return cycles
+
+
+def _edge_kind(fn, cond, outcome, modified):
+    """what does taking this outcome of the condition say about progress?
+    'bounded'       the condition involves a counter that is modified inside the loop
+    'changed'       a comparison of two (re)loaded values came out 'different' - the loop repeats only because another thread changed something
+    'unchanged'     such a comparison came out 'equal' (nothing changed, yet the loop continues)
+    'constant-test' a test of one loaded value against constants (lock bit, flag, pending bit, emptiness)
+    'unknown'       anything else"""
+    atom, pol = flow.strip_cond(fn, cond)
+    if atom is None or atom < 0:
+        return "unknown"
+    truth = outcome == pol  # truth value of the atom on this edge
+    names = {fn.nodes[x].get("name") for x in fn.subtree(cond) if fn.nodes[x]["k"] == "ref"}
+    names |= {"." + fn.nodes[x].get("leaf") for x in fn.subtree(cond) if fn.nodes[x]["k"] == "member"}
+    if names & modified:
+        return "bounded"
+    n = fn.nodes[atom]
+    c = fn.kids(atom)
+    is_cmp = (n["k"] == "bin" and n.get("op") in ("==", "!=")) or (n["k"] == "call" and n.get("callee", "").split("::")[-1] in ("operator==", "operator!="))
+    if is_cmp and len(c) == 2:
+        nonconst = [x for x in c if not ("v" in fn.nodes[x] or fn.nodes[x]["k"] in ("lit", "null"))]
+        if len(nonconst) == 2 and all(any(t.startswith("load:") for t in flow.srcs(fn, x)) for x in nonconst):
+            op = n.get("op") or ("==" if n["callee"].endswith("==") else "!=")
+            differ = truth if op == "!=" else (not truth)
+            return "changed" if differ else "unchanged"
+    if _constant_test(fn, cond):
+        return "constant-test"
+    return "unknown"
 
 
 def _constant_test(fn, cond):
